@@ -150,11 +150,18 @@ enum Op {
     Retry(Vec<u64>),
     PanicAsync,
     Waited,
+    /// sample the channel's metrics with a sampler whose callback performs `try_send(x)` / `send(x)` on the very
+    /// channel it samples (a self-monitoring pipeline): sampling must not call out under the state lock
+    SampleTry(u64),
+    SampleSend(u64),
 }
 
 impl Op {
     fn sender_side(&self) -> bool {
-        matches!(self, Op::Send(_) | Op::Try(_) | Op::Flush(_) | Op::Empty(_) | Op::DropSender)
+        matches!(
+            self,
+            Op::Send(_) | Op::Try(_) | Op::Flush(_) | Op::Empty(_) | Op::DropSender | Op::SampleTry(_) | Op::SampleSend(_)
+        )
     }
 }
 
@@ -162,6 +169,8 @@ fn parse_op(s: &Sexp) -> Option<Op> {
     let (tag, a) = s.as_tagged()?;
     Some(match (tag, a.len()) {
         ("s", 1) => Op::Send(a[0].as_u64()?),
+        ("m", 1) => Op::SampleTry(a[0].as_u64()?),
+        ("ms", 1) => Op::SampleSend(a[0].as_u64()?),
         ("t", 1) => Op::Try(a[0].as_u64()?),
         ("f", 1) => Op::Flush(a[0].as_u64()?),
         ("e", 1) => Op::Empty(a[0].as_u64()?),
@@ -239,7 +248,7 @@ fn parse_case(line: &str) -> Option<Case> {
         let (idx, ops) = rest.split_first()?;
         let idx = idx.as_usize()?;
         let ops = ops.iter().map(parse_op).collect::<Option<Vec<_>>>()?;
-        if !ops.iter().all(|o| o.sender_side()) {
+        if !ops.iter().all(|o| o.sender_side() && !matches!(o, Op::SampleTry(_) | Op::SampleSend(_))) {
             return None;
         }
         let dup = match kind {
@@ -287,6 +296,8 @@ enum Ev {
     RegEmpty(u64),
     Outcome(Option<Vec<u64>>),
     ReceiverDropped,
+    /// a metrics sampling op did not return (the sampler's send blocked on the state lock)
+    Hang,
 }
 
 enum Scripted {
@@ -497,6 +508,7 @@ impl Oracle {
                 }
             }
             Ev::ReceiverDropped => self.receiver_gone = true,
+            Ev::Hang => self.fail("c09-hang"),
             Ev::Win(_) => {}
             Ev::Call(b) => {
                 self.awaiting_outcome = true;
@@ -592,7 +604,10 @@ impl Oracle {
 /// What the schedule interpreter and the closures passed to `exec` share (single thread; the closures run inside
 /// `poll`, during which the interpreter holds no borrow).
 struct Core {
-    sender: Option<Sender<Vec<u64>>>,
+    sender: Option<Arc<Sender<Vec<u64>>>>,
+    /// a sampling op did not return within the watchdog limit: the state mutex is held for good, every further op
+    /// on this channel would block too — they are skipped
+    hung: std::cell::Cell<bool>,
     metrics: ChannelMetrics<Vec<u64>>,
 }
 
@@ -644,10 +659,78 @@ fn sender_op(core: &Rc<RefCell<Core>>, sh: &Shared, op: &Op) -> String {
         };
     }
     let core = core.borrow();
+    if core.hung.get() {
+        return "x".into();
+    }
     let Some(s) = core.sender.as_ref() else {
         return "x".into();
     };
     match op {
+        Op::SampleTry(x) | Op::SampleSend(x) => {
+            // on a helper thread under a watchdog: a deadlock becomes the observable `hang` within 3 s
+            let is_try = matches!(op, Op::SampleTry(_));
+            let (x, s2, sh2) = (*x, s.clone(), sh.clone());
+            let m2 = s.metric_source();
+            let (tx, rx) = std::sync::mpsc::channel::<String>();
+            std::thread::spawn(move || {
+                use emit::metric::Source;
+                struct Emitting<F: Fn()>(std::cell::Cell<bool>, F);
+                impl<F: Fn()> emit::metric::sampler::Sampler for Emitting<F> {
+                    fn metric<P: emit::Props>(&self, _: emit::metric::Metric<P>) {
+                        if !self.0.replace(true) {
+                            (self.1)();
+                        }
+                    }
+                }
+                let tag = std::cell::RefCell::new(String::from("m=nocall"));
+                let before = sample(&m2);
+                let (q0, t0) = (before("queue_length"), before("queue_full_truncated"));
+                m2.sample_metrics(&Emitting(std::cell::Cell::new(false), || {
+                    *tag.borrow_mut() = if is_try {
+                        match s2.try_send(x) {
+                            Ok(()) => {
+                                log(&sh2, Ev::TryOk(x));
+                                "m=ok".into()
+                            }
+                            Err(e) => match e.into_retryable() {
+                                Some(y) => {
+                                    log(&sh2, Ev::TryFull { x, y });
+                                    format!("m=full({})", y)
+                                }
+                                None => "m=closed".into(),
+                            },
+                        }
+                    } else {
+                        s2.send(x);
+                        "ms".into()
+                    };
+                }));
+                if !is_try {
+                    let after = sample(&m2);
+                    let (q1, t1) = (after("queue_length"), after("queue_full_truncated"));
+                    log(&sh2, Ev::Sent { x, q0, t0, q1, t1 });
+                }
+                drop(s2);
+                let _ = tx.send(tag.into_inner());
+            });
+            // 3 s for the first verdict; once a hang has been seen in this process the (already failing) run only
+            // needs to stay fast: later sampling ops get 50 ms
+            static SEEN_HANG: std::sync::atomic::AtomicBool = std::sync::atomic::AtomicBool::new(false);
+            let limit = if SEEN_HANG.load(std::sync::atomic::Ordering::SeqCst) {
+                Duration::from_millis(50)
+            } else {
+                Duration::from_secs(3)
+            };
+            match rx.recv_timeout(limit) {
+                Ok(tag) => tag,
+                Err(_) => {
+                    SEEN_HANG.store(true, std::sync::atomic::Ordering::SeqCst);
+                    core.hung.set(true);
+                    log(sh, Ev::Hang);
+                    "m=hang".into()
+                }
+            }
+        }
         Op::Send(x) => {
             let before = sample(&core.metrics);
             let (q0, t0) = (before("queue_length"), before("queue_full_truncated"));
@@ -701,7 +784,7 @@ impl World {
     fn new(cap: usize, sp: Vec<usize>, win: Windows) -> World {
         let (sender, receiver): (Sender<Vec<u64>>, Receiver<Vec<u64>>) = emit_batcher::bounded(cap);
         let metrics = sender.metric_source();
-        let core = Rc::new(RefCell::new(Core { sender: Some(sender), metrics }));
+        let core = Rc::new(RefCell::new(Core { sender: Some(Arc::new(sender)), metrics, hung: std::cell::Cell::new(false) }));
         CB_CTX.with(|c| {
             *c.borrow_mut() = Some(Rc::new(CbCtx {
                 core: core.clone(),
@@ -778,10 +861,17 @@ impl World {
 
     /// returns the output token of the op
     fn op(&mut self, op: &Op) -> String {
+        if self.core.borrow().hung.get() {
+            return "x|-/-".into(); // the state mutex is held for good: nothing can be done on this channel
+        }
         let tag: String = match op {
-            Op::Send(_) | Op::Try(_) | Op::Flush(_) | Op::Empty(_) | Op::DropSender => {
-                sender_op(&self.core, &self.sh, op)
-            }
+            Op::Send(_)
+            | Op::Try(_)
+            | Op::Flush(_)
+            | Op::Empty(_)
+            | Op::DropSender
+            | Op::SampleTry(_)
+            | Op::SampleSend(_) => sender_op(&self.core, &self.sh, op),
             Op::DropReceiver => match self.fut.take() {
                 None => "x".into(),
                 Some(f) => {
@@ -854,6 +944,10 @@ impl World {
             out.push(',');
             out.push_str(&txt);
         }
+        if self.core.borrow().hung.get() {
+            out.push_str("|-/-");
+            return out;
+        }
         let after = sample(&self.core.borrow().metrics);
         let (q, t) = (after("queue_length"), after("queue_full_truncated"));
         if q > self.cap {
@@ -864,6 +958,9 @@ impl World {
     }
 
     fn finish(&mut self) -> String {
+        if self.core.borrow().hung.get() {
+            return "F:hung".into();
+        }
         let sh = self.sh.lock().unwrap();
         let st = if self.torn_down {
             "dropped"
@@ -906,6 +1003,10 @@ impl World {
 
 impl Drop for World {
     fn drop(&mut self) {
+        if self.core.borrow().hung.get() {
+            // dropping the Receiver would block on the state mutex: leak it
+            std::mem::forget(self.fut.take());
+        }
         CB_CTX.with(|c| *c.borrow_mut() = None);
     }
 }
@@ -934,6 +1035,8 @@ fn show_op(op: &Op) -> Sexp {
     let n = |x: &u64| Sexp::num(*x);
     match op {
         Op::Send(x) => Sexp::tagged("s", vec![n(x)]),
+        Op::SampleTry(x) => Sexp::tagged("m", vec![n(x)]),
+        Op::SampleSend(x) => Sexp::tagged("ms", vec![n(x)]),
         Op::Try(x) => Sexp::tagged("t", vec![n(x)]),
         Op::Flush(w) => Sexp::tagged("f", vec![n(w)]),
         Op::Empty(w) => Sexp::tagged("e", vec![n(w)]),
@@ -969,8 +1072,14 @@ fn gen_one(rng: &mut Rng, tier: Tier) -> String {
     let exhaust = retry_heavy && rng.chance(1, 2); // … without interruption
     let send_heavy = !exhaust && rng.chance(1, 4); // overflow
     let never_runs = rng.chance(1, 12); // a receiver that is never polled / a processor that never returns
-    let drop_s_at = if rng.chance(1, 3) { Some(rng.usize(len + 1)) } else { None };
-    let drop_r_at = if rng.chance(1, 8) { Some(rng.usize(len + 1)) } else { None };
+    // a long idle stretch first: ≥ 10 consecutive empty hand-offs, so the idle back-off reaches its cap (500 ms at
+    // the 9th wait), with sender ops inside the windows of those LATE idle waits (and between them)
+    let idle_heavy = !never_runs && rng.chance(1, 8);
+    let idle_len = if idle_heavy { rng.range(12, 20) as usize } else { 0 };
+    let len = len.max(idle_len + if idle_heavy { 6 } else { 0 });
+    let keep_alive = idle_heavy && rng.chance(3, 4);
+    let drop_s_at = if !keep_alive && rng.chance(1, 3) { Some(rng.usize(len + 1)) } else { None };
+    let drop_r_at = if !keep_alive && rng.chance(1, 8) { Some(rng.usize(len + 1)) } else { None };
     let mut sp = Vec::new();
     for i in 0..24 {
         if rng.chance(1, 14) {
@@ -1074,6 +1183,25 @@ fn gen_one(rng: &mut Rng, tier: Tier) -> String {
             }
         }
     }
+    if idle_heavy {
+        let mut id = 2500u64;
+        for j in 8..=14usize {
+            if rng.chance(1, 2) && !win.waits.contains_key(&j) {
+                let n = rng.range(1, 2);
+                let ops = (0..n)
+                    .map(|_| {
+                        id += 1;
+                        if rng.chance(2, 3) {
+                            Op::Send(id)
+                        } else {
+                            Op::Try(id)
+                        }
+                    })
+                    .collect();
+                win.waits.insert(j, ops);
+            }
+        }
+    }
     let mut world = World::new(cap, sp.clone(), win.clone());
     let mut next_item = 1u64;
     let mut next_w = 100u64;
@@ -1090,7 +1218,8 @@ fn gen_one(rng: &mut Rng, tier: Tier) -> String {
                 (sh.batch_outstanding, sh.wait_outstanding)
             };
             let gone = world.fut.is_none();
-            let blind = rng.chance(1, 10);
+            let idling = i < idle_len && !gone;
+            let blind = !idling && rng.chance(1, 10);
             let rx_turn = !never_runs
                 && !gone
                 && if send_heavy {
@@ -1100,7 +1229,16 @@ fn gen_one(rng: &mut Rng, tier: Tier) -> String {
                 } else {
                     rng.chance(1, 2)
                 };
-            if !blind && rx_turn {
+            if idling && !(i > 9 && rng.chance(1, 10)) {
+                // keep the receiver going through empty hand-offs; a batch (from a window send) is processed at once
+                if proc_ {
+                    Op::Ok
+                } else if wait_ {
+                    Op::Waited
+                } else {
+                    Op::Poll
+                }
+            } else if !blind && rx_turn {
                 if proc_ {
                     let o = if retry_heavy { rng.below(3) + 2 } else { rng.below(8) };
                     match o {
@@ -1138,7 +1276,14 @@ fn gen_one(rng: &mut Rng, tier: Tier) -> String {
                     0..=4 => {
                         let x = next_item;
                         next_item += 1;
-                        if send_heavy || rng.chance(2, 3) {
+                        if rng.chance(1, 14) {
+                            // a self-monitoring pipeline: the metrics sampler emits into the channel it samples
+                            if rng.bool() {
+                                Op::SampleTry(x)
+                            } else {
+                                Op::SampleSend(x)
+                            }
+                        } else if send_heavy || rng.chance(2, 3) {
                             Op::Send(x)
                         } else {
                             Op::Try(x)
